@@ -1,0 +1,12 @@
+//go:build !verif
+
+package main
+
+import (
+	"go.lsp.dev/jsonrpc2"
+
+	"github.com/juev/hledger-lsp/internal/server"
+)
+
+// verifHandler is a verification hook; without the verif build tag it adds nothing.
+func verifHandler(_ *server.Server, next jsonrpc2.Handler) jsonrpc2.Handler { return next }
